@@ -50,6 +50,10 @@ def run(chk: Check, proj: Project) -> None:
     chk.borrow("S12", "inject() reads the context of the render that is CURRENT: the per-instance metadata stack is LIFO - pushed with append, popped from the same end (a component that renders itself again in get_context_data must find its own entry back) (shared with C14-S1)",
                lambda sub: _C14.s1(sub, proj, w), only=lambda o: "lifo" in o.construct.lower() or "stack" in o.construct.lower())
     s10(chk, proj, w)
+    from . import C01 as _C01
+
+    chk.borrow("S14", "inject() in a slot's default content that a fill prints through `{{ default }}` finds the provider the FILL put around it: the SlotRef renders on the slot's live Context, the object the fill's `{% provide %}` pushes its key on - not on a snapshot taken before the fill ran (shared with C01-S12)",
+               lambda sub: _C01.s12c_slotref_live_context(sub, proj))
     from . import C07 as _C07
 
     chk.borrow("S13", "inject() reads the context of the render that is current IN THIS THREAD: the stack inject() takes its context from is thread-confined (the library itself shares one component object between all request threads through as_view(), and users keep module-level instances) - a plain per-instance deque lets thread A's inject() return the data of thread B's provider (shared with C07-S1-I)",
